@@ -56,6 +56,7 @@ type batch2 struct {
 	batches  []nodeBatch
 	index    []int
 	err      error
+	routes   map[uint16]*redisNode // slot -> node chosen for it in this batch
 }
 
 func (tb *batch2) joinError(err error) error {
@@ -82,7 +83,7 @@ func (batch *batch2) Put(cmd string, args ...interface{}) error {
 		return nil
 	}
 
-	node, err := batch.cluster.ChooseNodeWithCmd(cmd, args...)
+	node, keys, err := batch.cluster.chooseNodeWithCmdAndKeys(cmd, false, args...)
 	if err != nil {
 		err = fmt.Errorf("run ChooseNodeWithCmd error : %w", err)
 		return batch.joinError(err)
@@ -90,6 +91,21 @@ func (batch *batch2) Put(cmd string, args ...interface{}) error {
 	if node == nil {
 		// node is nil means no need to put
 		return nil
+	}
+	if len(keys) > 0 {
+		// One routing decision per slot for the whole batch: the slot table is refreshed
+		// asynchronously (inform/handleUpdate), and a refresh landing between two Put calls
+		// would split the commands of one key over two node batches, which are executed
+		// concurrently and therefore in no particular order.
+		slot := hash(keys[0])
+		if batch.routes == nil {
+			batch.routes = make(map[uint16]*redisNode)
+		}
+		if pinned, ok := batch.routes[slot]; ok {
+			node = pinned
+		} else {
+			batch.routes[slot] = node
+		}
 	}
 
 	var i int
